@@ -57,6 +57,21 @@ def constants():
                  'registerDefaultPlugin call with non-literal arguments')
             defaults.append((a[0].value, a[1].value))
     need(defaults, 'no registerDefaultPlugin calls in Owner')
+    # Owner.disable: the commands that cannot be disabled; Owner.enable: in-memory table first, registry second
+    oc = find_class(ot, 'Owner')
+    dis = [n for n in oc.body if isinstance(n, ast.FunctionDef) and n.name == 'disable']
+    ena = [n for n in oc.body if isinstance(n, ast.FunctionDef) and n.name == 'enable']
+    need(len(dis) == 1 and len(ena) == 1, 'Owner.disable/enable not found')
+    tup = [n for n in ast.walk(dis[0]) if isinstance(n, ast.Compare) and isinstance(n.ops[0], ast.In)
+           and isinstance(n.comparators[0], ast.Tuple)]
+    need(len(tup) == 1 and all(isinstance(e, ast.Constant) for e in tup[0].comparators[0].elts), 'Owner.disable: undisablable tuple not found')
+    undis = [e.value for e in tup[0].comparators[0].elts]
+    dsrc = ast.unparse(dis[0])
+    need('plugin.isCommand(command)' in dsrc and "conf.supybot.commands.disabled().add" in dsrc and '_disabled.add(command' in dsrc,
+         'Owner.disable: shape changed')
+    esrc = ast.unparse(ena[0])
+    i1, i2 = esrc.find('_disabled.remove('), esrc.find('conf.supybot.commands.disabled().remove(')
+    need(0 <= i1 < i2 and 'except KeyError' in esrc, 'Owner.enable: expected _disabled.remove before the registry removal, inside try/except KeyError')
     # conf.py: supybot.commands.nested.maximum default
     ct = tree('src/conf.py')
     mx = None
@@ -70,7 +85,7 @@ def constants():
             mx = v.args[0].value
     need(mx is not None, 'supybot.commands.nested.maximum registration not found')
     return {'special': special.value, 'error_prefix': 'Error: ', 'empty_msg': empty[0], 'too_deep': deep[0],
-            'ambiguous': amb[0], 'defaults': defaults, 'nested_max': mx}
+            'ambiguous': amb[0], 'defaults': defaults, 'nested_max': mx, 'undisablable': undis}
 
 
 @table('T14')
@@ -83,5 +98,6 @@ def gen_T14():
     out += 'Definition TOO_DEEP_MSG : list N := %s.\n' % cstr(c['too_deep'])
     out += 'Definition OWNER_DEFAULTS : list (list N * list N) :=\n  %s.\n' % clist(
         '(%s, %s)' % (cstr(k), cstr(v)) for k, v in c['defaults'])
+    out += 'Definition UNDISABLABLE : list (list N) := %s.\n' % clist(cstr(x) for x in c['undisablable'])
     out += 'Definition NESTED_MAX_DEFAULT : nat := %d.\n' % c['nested_max']
     return 'src/callbacks.py plugins/Owner/plugin.py src/conf.py', out
